@@ -715,6 +715,12 @@ def eval_other(ctx, plan):
         if kind == 'betweenness':
             sig['directed'] = bool(job['directed'])
         impl_err = 'err ' + r['err'] if 'err' in r else None
+        vals = [x for k in ('scores', 'values', 'row', 'col', 'u', 'v') for x in (r.get(k) or [])]
+        if any(math.isnan(x) or math.isinf(x) for x in vals) and kind != 'values':
+            # a NaN / infinite score is not a value of the definition: the input is a failing input as it stands
+            ctx.case((kind, 'nonfinite', json.dumps(job, sort_keys=True)), True)
+            ctx.spec_fail(sig, job, {'impl': {k: r.get(k) for k in ('scores', 'row', 'col') if k in r}, 'detail': 'non-finite score'})
+            continue
         if kind == 'katz':
             gt = enc_graph(g)
             run = 'c04.katz %s %s %d' % (gt, enc_rat(job['damping']), job['path_length'])
@@ -802,8 +808,14 @@ def eval_other(ctx, plan):
         if not ans.startswith('ok '):
             ctx.disagree(sig, job, ans, impl, line)
             continue
-        model = dec_ratlist(ans[3:])
+        toks = ans.split(' ')
+        model = dec_ratlist(toks[1])
         if any(math.isnan(v) for v in impl) or not rel_close(model, impl, tol):
+            if job['kind'] == 'push' and len(toks) > 2 and float(Fraction(toks[2])) <= 100 * F32_TOL:
+                # a residual within float32 rounding of the tolerance (or of another residual): the work-list order
+                # is a decision taken on numbers (DESIGN 8)
+                ctx.count('tie-skipped:push-worklist')
+                continue
             ctx.disagree(sig, job, [float(m) for m in model], impl, line)
 
 
